@@ -117,17 +117,10 @@ def run(ctx):
                 "non-trivial iff ≥ 2 datagrams with stream data, both directions, exported exactly.")
     ctx.assumptions = ["ground truth comes from harness/gen_quic.py (independent RFC sender); datagrams are told apart by "
                        "their capture timestamps as the property says"]
-    mods = []
-    try:
-        m = importlib.import_module("c02_model")
-        mods = ["TLX.Props.C02"]
-    except ModuleNotFoundError:
-        m = None
-        ctx.notes.append("C02 component models not present in this tree")
-    if mods:
-        ctx.prove(mods)
-        ctx.require_theorems(getattr(m, "THEOREMS", THEOREMS))
-        m.run_model(ctx)
+    import c02_model
+    ctx.prove(c02_model.modules() + ["TLX.Props.C16", "TLX.Props.C17"])
+    ctx.require_theorems(c02_model.theorems())
+    c02_model.run_model(ctx)          # ties every QUIC component model to the real code
     explore(ctx)
     return ctx.finish(search=lambda c: explore(c, scale=2))
 
